@@ -16,7 +16,7 @@ class E2:
     def __init__(self, name, harness, sources=(), defines=(), entry='harness', max_paths=100000, max_steps=3_000_000, timeout=300,
                  bounds='', functions=(), stubs=(), assumptions=(), leaks=False, summaries=(), exclude=None, weight=1, validate=3,
                  ref=(), max_depth=120, fork_max=8, all_lib=False, opt=None, openmp=False, expect_paths_min=1, native_replay=True, mem_gb=12,
-                 unconfirmed_ok_kinds=(), stop_distinct=6):
+                 unconfirmed_ok_kinds=(), stop_distinct=6, uninit_symbolic=False):
         self.name = name; self.harness = harness; self.sources = list(sources); self.defines = list(defines); self.entry = entry
         self.max_paths = max_paths; self.max_steps = max_steps; self.timeout = timeout; self.bounds = bounds
         self.functions = list(functions); self.stubs = list(stubs); self.assumptions = list(assumptions); self.leaks = leaks
@@ -24,6 +24,7 @@ class E2:
         self.openmp = openmp; self.max_depth = max_depth; self.fork_max = fork_max; self.all_lib = all_lib; self.opt = opt
         self.expect_paths_min = expect_paths_min; self.native_replay = native_replay; self.mem_gb = mem_gb
         self.engine = 'E2/symx'; self.stop_distinct = stop_distinct
+        self.uninit_symbolic = uninit_symbolic     # reads of never-written malloc'd bytes are arbitrary; native replay fills malloc'd memory with a poison byte
         if all_lib:
             self.sources = [s for s in LIB_SOURCES if not s.startswith('src/simd/x86/')]
 
@@ -74,6 +75,7 @@ class E2:
                '--fork-max', str(self.fork_max), '--samples', str(max(self.validate, 3))]
         if self.stop_distinct: cmd += ['--stop-distinct', str(self.stop_distinct)]
         if self.leaks: cmd.append('--leaks')
+        if self.uninit_symbolic: cmd.append('--uninit-symbolic')
         if self.summaries: cmd += ['--summaries', ','.join(self.summaries)]
         rc, out, serr, secs, to = run(cmd, timeout=self.timeout + 30, mem_gb=self.mem_gb)
         if not os.path.exists(outj):
@@ -89,7 +91,7 @@ class E2:
         if viol:
             seen = {}
             for v in viol:
-                seen.setdefault((v['kind'], v['msg'][:80], v['where'], v.get('failed_alloc'), v.get('io_failed'), v.get('io_fail_op'), str(v.get('interfered')), str(v.get('preempt_loc'))), v)
+                seen.setdefault((v['kind'], v['msg'][:80], v['where'], v.get('failed_alloc'), str(v.get('failed_allocs') or ''), v.get('io_failed'), v.get('io_fail_op'), str(v.get('interfered')), str(v.get('preempt_loc'))), v)
             uniq = list(seen.values())
             # violations whose call site is listed by an OPEN known finding of this property are reported as KNOWN-FINDING
             # (after native confirmation); anything else is still a VIOLATION
@@ -123,7 +125,7 @@ class E2:
                 if rep.get('verdict') == 'reproduced' and confirmed is None and known_id(v) is None:
                     confirmed = (v, rep)
             payload = {'property': pid, 'obligation': self.name, 'engine': self.engine, 'harness': self.harness, 'defines': self.defines + extra,
-                       'violations': [{k: v[k] for k in ('kind', 'msg', 'where', 'model', 'choices', 'failed_alloc', 'io_failed', 'io_fail_op', 'interfered', 'notes', 'poke', 'preempt_loc') if k in v} for v in uniq[:40]],
+                       'violations': [{k: v[k] for k in ('kind', 'msg', 'where', 'model', 'choices', 'failed_alloc', 'failed_allocs', 'io_failed', 'io_fail_op', 'interfered', 'notes', 'poke', 'preempt_loc') if k in v} for v in uniq[:40]],
                        'native_replay': reports, 'total_violating_paths': len(viol)}
             path = save_replay(pid, self.name, payload)
             if confirmed:
@@ -142,7 +144,7 @@ class E2:
         validated = 0; mism = None
         if self.native_replay:
             for smp in res['samples'][:self.validate]:
-                rep = self._native(d, {'model': smp['inputs'], 'choices': smp['choices'], 'failed_alloc': smp.get('failed_alloc'), 'io_failed': smp.get('io_failed'), 'poke': smp.get('poke'), 'interfered': smp.get('interfered'),
+                rep = self._native(d, {'model': smp['inputs'], 'choices': smp['choices'], 'failed_alloc': smp.get('failed_alloc'), 'failed_allocs': smp.get('failed_allocs'), 'io_failed': smp.get('io_failed'), 'poke': smp.get('poke'), 'interfered': smp.get('interfered'),
                                        'io_fail_op': smp.get('io_fail_op')}, extra, expect_obs=smp['obs'])
                 if rep.get('verdict') == 'agrees': validated += 1
                 elif rep.get('verdict') in ('obs-mismatch', 'reproduced', 'replay-build-failed'):
@@ -171,7 +173,7 @@ class E2:
         lib, errs = native_lib(True)
         if lib is None: return None
         exe = os.path.join(pdir, 'native_preempt')
-        cmd = ['gcc', '-std=gnu11', '-O1', '-g', '-w', '-fopenmp', '-fsanitize=address,undefined', '-fno-sanitize-recover=undefined', '-fno-omit-frame-pointer'] + REAL_DEFS + REAL_INCS + \
+        cmd = ['gcc', '-std=gnu11', '-O1', '-g', '-w', '-fopenmp', '-fsanitize=address,undefined', '-fno-sanitize=nonnull-attribute', '-fno-sanitize-recover=undefined', '-fno-omit-frame-pointer'] + REAL_DEFS + REAL_INCS + \
               ['-I' + os.path.dirname(fname), '-I' + os.path.join(VERIF, 'harness'), '-I' + os.path.join(VERIF, 'ref'), '-DVERIF_NATIVE'] + self.defines + list(extra_defs) + mflags_for(rel) + \
               [os.path.join(VERIF, self.harness), os.path.join(VERIF, 'harness', 'e2', 'symx_native.c'), psrc] + [os.path.join(VERIF, 'ref', r) for r in self.ref] + \
               [lib, '-o', exe, '-no-pie', NATIVE_WRAPS] + native_link_flags(True)
@@ -186,7 +188,7 @@ class E2:
             if lib is None:
                 return {'verdict': 'replay-build-failed', 'output': str(errs[:1])}
             exe = os.path.join(d, 'native_harness')
-            cmd = ['gcc', '-std=gnu11', '-O1', '-g', '-w', '-fsanitize=address,undefined', '-fno-sanitize-recover=undefined', '-fno-omit-frame-pointer'] + REAL_DEFS + REAL_INCS + \
+            cmd = ['gcc', '-std=gnu11', '-O1', '-g', '-w', '-fsanitize=address,undefined', '-fno-sanitize=nonnull-attribute', '-fno-sanitize-recover=undefined', '-fno-omit-frame-pointer'] + REAL_DEFS + REAL_INCS + \
                   ['-I' + os.path.join(VERIF, 'harness'), '-I' + os.path.join(VERIF, 'ref'), '-DVERIF_NATIVE'] + self.defines + list(extra_defs) + \
                   [os.path.join(VERIF, self.harness), os.path.join(VERIF, 'harness', 'e2', 'symx_native.c')] + [os.path.join(VERIF, 'ref', r) for r in self.ref] + \
                   [lib, '-o', exe, '-no-pie', NATIVE_WRAPS] + native_link_flags(True)
@@ -217,7 +219,9 @@ class E2:
                     f.write('in %s %d\n' % (k, val))
             for nm, k in (v.get('choices') or []):
                 f.write('choice %d\n' % k)
-            if v.get('failed_alloc'):
+            if v.get('failed_allocs'):
+                for k_ in v['failed_allocs']: f.write('failalloc %d\n' % k_)       # symx_fault_alloc(n > 1): several failures on one path
+            elif v.get('failed_alloc'):
                 f.write('failalloc %d\n' % v['failed_alloc'])
             if v.get('io_failed'):
                 f.write('failio %d %s\n' % (v.get('io_fail_op') or 0, v['io_failed']))
@@ -253,6 +257,10 @@ class E2:
         env = dict(os.environ); env['SYMX_INPUT'] = inp; env['SYMX_TMP'] = tmp
         env['OMP_NUM_THREADS'] = threads; env['OMP_WAIT_POLICY'] = 'passive'; env['OMP_DYNAMIC'] = 'false'     # (1 thread:) the engine explores the sequential schedule of the OpenMP loops; real interleavings are C07's subject
         env['ASAN_OPTIONS'] = 'detect_leaks=%d:exitcode=99:allocator_may_return_null=1' % (1 if self.leaks else 0)
+        if self.uninit_symbolic:
+            # the counterexample chose garbage for never-written heap bytes: the replay cannot place those exact bytes, it fills every
+            # malloc'd block with a poison byte instead (0x7f: large positive when read as an integer or index)
+            env['ASAN_OPTIONS'] += ':max_malloc_fill_size=268435456:malloc_fill_byte=127'
         rc, out, err, secs, to = run([exe_to_run], timeout=60, env=env, cwd=tmp)
         txt = out + err
         if to:
